@@ -305,3 +305,49 @@ func HarnessCCMultiLine() {
 		vReach("allows")
 	}
 }
+
+// HarnessExpiresForms: lifetime chosen from max-age / Expires / default for every Expires
+// form, including one that does not parse ("counts as already expired").
+func HarnessExpiresForms() {
+	vClockFreeze(true)
+	now := time.Now()
+	h := http.Header{}
+	form := symChoice(4)
+	var expT time.Time
+	switch form {
+	case 1:
+		h["Expires"] = []string{[]string{"0", "garbage", "Thu, 32 Foo 2026 25:61:00 GMT", "-1"}[symChoice(4)]}
+	case 2, 3:
+		expT = symTime()
+		h["Expires"] = []string{vTimeString(expT)}
+	}
+	hasAge := symChoice(2) == 1
+	if hasAge {
+		h["Cache-Control"] = []string{"max-age=30"}
+	}
+	force := symBool()
+	ignore := symBool()
+	dflt := 100 * time.Second
+	hd := ParseHeaderDirective(h)
+	stored := hd.ShouldCache(ignore)
+	vReach("decided")
+	if !stored {
+		vReach("not-stored")
+		return
+	}
+	exp := hd.GetExpiresOrDefault(force, dflt)
+	life := exp.Sub(now)
+	switch {
+	case force:
+		vAssert(life == dflt, "c03.forced-default-not-applied")
+	case hasAge:
+		vAssert(life == 30*time.Second, "c03.lifetime-not-max-age")
+	case form == 1:
+		vReach("unparseable-expires")
+		vAssert(life <= 0, "c03.unparseable-expires-treated-as-fresh")
+	case form >= 2:
+		vAssert(exp.Equal(expT), "c03.lifetime-not-expires-date")
+	default:
+		vAssert(life == dflt, "c03.default-lifetime-not-applied")
+	}
+}
